@@ -775,6 +775,11 @@ func c14EnumPaths(fn *ssa.Function, decide func(cond ssa.Value) (bool, bool), li
 // over the predicate's own terms (receiver = recv). fields lists the struct
 // fields the literals read. nil when the body is not understood.
 func c14TrueCases(fn *ssa.Function) (cases []map[string]bool, fields []*types.Var) {
+	return c14CasesOf(fn, true)
+}
+
+// c14CasesOf: the cases in which the loop-free boolean predicate fn returns `want` (see c14TrueCases).
+func c14CasesOf(fn *ssa.Function, want bool) (cases []map[string]bool, fields []*types.Var) {
 	if fn == nil || fn.Blocks == nil || len(Loops(fn)) > 0 {
 		return nil, nil
 	}
@@ -833,14 +838,14 @@ func c14TrueCases(fn *ssa.Function) (cases []map[string]bool, fields []*types.Va
 		}
 		rv := p.Resolve(p.Ret.Results[0])
 		switch {
-		case IsConstBool(rv, true):
-		case IsConstBool(rv, false):
+		case IsConstBool(rv, want):
+		case IsConstBool(rv, !want):
 			continue
 		default:
 			if _, isC := rv.(*ssa.Const); isC {
 				return nil, nil
 			}
-			add(rv, true)
+			add(rv, want)
 		}
 		if consistent {
 			cases = append(cases, lits)
